@@ -31,14 +31,14 @@ class Proj:
         return bfg.configure(self.src, bld or self.bld, self.backend, self.env, args=self.args,
                              inproc=inproc)
 
-    def run(self, targets, bld=None, keep_going=False):
+    def run(self, targets, bld=None, keep_going=False, timeout=120):
         """-> (rc, output text, [log records])"""
         self.nlog += 1
         log = os.path.join(self.root, 'log%d' % self.nlog)
         flags = []
         if keep_going:
             flags = ['-k'] if self.backend == 'make' else ['-k', '0']
-        rc, out = bfg.build(self.backend, bld or self.bld, targets, self.env, log, flags)
+        rc, out = bfg.build(self.backend, bld or self.bld, targets, self.env, log, flags, timeout)
         recs = bfg.read_log(log)
         try:
             os.remove(log)
